@@ -20,7 +20,7 @@ EXPLANATION = (
 def run(ctx):
     ctx.rule("role-index", "key index by operation and role")
     ctx.rule("whole-message", "transport read/write pass their whole input and output buffers to the cipher state")
-    ctx.rule("dataflow-template", "CipherState/StatelessCipherState forward (nonce, AD, input, output) to Cipher::decrypt/encrypt")
+    ctx.rule("dataflow-template", "CipherState/StatelessCipherState forward (nonce, AD, input, output) to Cipher::decrypt/encrypt; Split() keys the two directions from the two HKDF outputs")
     ctx.rule("aead-nonce", "the nonce is an input of the AEAD call in its specified encoding")
     ctx.rule("aead-operands", "key / AD / ciphertext body / tag operands of the backend call")
     ctx.rule("aead-error", "verification failure -> Error::Decrypt")
@@ -54,7 +54,9 @@ def run(ctx):
                     ok = a[-2:] == want_tail and (not stateless or a[1] == ("arg", 2))
                 ctx.ob("whole-message", "%s::%s" % (ty.split("::")[-1], op), ok, "%s forwards input and output unchanged" % op if ok else "%s alters its input/output on the way to %s" % (op, inner), where(fn), cfg)
         spec_templates.run_templates(ctx, cfg, names=("CipherState::encrypt_ad", "CipherState::decrypt_ad", "StatelessCipherState::encrypt_ad", "StatelessCipherState::decrypt_ad",
-                                                  "CipherState::encrypt", "CipherState::decrypt", "StatelessCipherState::encrypt", "StatelessCipherState::decrypt"))
+                                                  "CipherState::encrypt", "CipherState::decrypt", "StatelessCipherState::encrypt", "StatelessCipherState::decrypt",
+                                                  # the two directions have *independent* keys only if Split() takes them from the two HKDF outputs
+                                                  "SymmetricState::split", "split_raw"))
         aead.check_wrappers(ctx, cfg, {"nonce": 1, "operands": 1, "error": 1, "no-leak": 0})
         P = ctx.lenproof(cfg)
         m = 0
